@@ -800,12 +800,20 @@ func previousRelationshipUniquenessConstraint(scope *Scope, part *PatternPart, s
 			continue
 		}
 
+		// The steps of a pattern predicate keep the bindings they were declared with, while the scope may hold
+		// copies of them by now: translating an earlier pattern predicate of the same WHERE replaces the scope by a
+		// snapshot. Only the scope's binding knows which frame projected the relationship last.
+		previousEdge := previousStep.Edge
+		if scopedEdge, bound := scope.Lookup(previousEdge.Identifier); bound {
+			previousEdge = scopedEdge
+		}
+
 		constraint = pgsql.OptionalAnd(
 			constraint,
 			pgsql.NewBinaryExpression(
 				currentEdgeID,
 				pgsql.OperatorNotEquals,
-				relationshipIDReference(scope, previousStep.Edge),
+				relationshipIDReference(scope, previousEdge),
 			),
 		)
 	}
